@@ -45,6 +45,9 @@ def run(prog, tier):
     check_wildcard_none(R, prog)
     from ._shared import check_no_shared_state
     check_no_shared_state(R, prog, P, ['cnfgen.formula'], 120)
+    from ._families import borrow as _borrow
+    from . import c16 as _c16
+    _borrow(R, P, "GRAPH", prog, _c16.analyse, floor=100)
     return R
 
 
